@@ -2,7 +2,8 @@
 # attempts; framing errors never retried; a tainted connection is never reused; silent peers cost
 # at most the configured timeout.  Enumerated fault injection against the real HttpClient with a
 # scripted raw-socket server as the observer (harness/c17_httpclient.cpp); rules in lib/c17_judge.py.
-import json, os, time
+import json, os, random, time
+from collections import Counter
 import vf
 import c17_cases as cc
 from c17_cases import Fault, Req, Case, OK, seq, STOPS
@@ -312,7 +313,7 @@ def _judge_all(ctx, cases, recs, flavor, rerun_bin):
             else:
                 ctx.violation(v["key"], v["what"], d)
     # timing-sensitive candidates: re-run the case alone; only a reproduced miss is a verdict
-    done_keys = Counter_()
+    done_keys = Counter()
     verdicts = {}
     for c, v, d in timing:
         ctx.obs("timing_candidates")
@@ -348,11 +349,6 @@ def _judge_all(ctx, cases, recs, flavor, rerun_bin):
             verdicts.setdefault(v["key"], False)
 
 
-def Counter_():
-    from collections import Counter
-    return Counter()
-
-
 # ------------------------------------------------------------------------------ entry points
 def run(ctx):
     thorough = ctx.tier == "thorough"
@@ -373,7 +369,6 @@ def run(ctx):
     ctx.extra["wall_plain_s"] = round(time.time() - t0, 1)
     if thorough:
         # sanitizer builds: the quick selection (seeded separately so it does not disturb the plain enumeration)
-        import random
         sub_ctx_rng = ctx.rng
         ctx.rng = random.Random(ctx.seed * 7919 + 17)
         qcases, _ = _enumerate(ctx, geo, False)
